@@ -2,6 +2,7 @@
 # usage: seedtest.sh <PROP> <patch.diff> <demo_test.go> [tier] [check-props...]
 # Confirms a seeded change (compiles, suite passes, demo fails with / passes without) in a scratch worktree of /repo
 # outside /repo and /verif, then runs the property's check against the changed tree. Removes the worktree afterwards.
+# env VERIF_HOME: run the check from that copy of /verif (e.g. a git worktree of a commit) instead of the working tree.
 set -u
 export GOFLAGS=-mod=mod GOPROXY=off GOSUMDB=off GOTOOLCHAIN=local
 PROP=$1; PATCH=$(readlink -f "$2"); DEMO=$(readlink -f "$3"); TIER=${4:-quick}; shift 4 2>/dev/null || shift $#
@@ -27,5 +28,5 @@ if go test -vet=off -count=1 ./$pkgdir/ -run "$(grep -o 'func Test[A-Za-z0-9_]*'
 rm -f "$WT/$place" "$WT"/.*.log
 for c in $CHECKS; do
   echo "== check $c $TIER against the changed tree"
-  (cd /verif && VERIF_REPO="$WT" VERIF_NOEVIDENCE=1 ./check.sh "$c" "$TIER" 2>&1 | grep -E "^VIOLATION|^  key=|^SUMMARY|^BROKEN|^KNOWN" | head -12)
+  (cd "${VERIF_HOME:-/verif}" && VERIF_REPO="$WT" VERIF_NOEVIDENCE=1 ./check.sh "$c" "$TIER" 2>&1 | grep -E "^VIOLATION|^  key=|^SUMMARY|^BROKEN|^KNOWN" | head -12)
 done
